@@ -82,7 +82,7 @@ DivHelper(t, a, b, bconst) ==   \* __Pyx_div_T
                IN Wrap(t, q - adapt)
 
 ModHelper(t, a, b, bconst) ==   \* __Pyx_mod_T
-  IF RSigned(t) /\ a = RMin(t) /\ b = -1 THEN cUB      \* a % b overflows
+  IF RSigned(t) /\ b = -1 THEN 0       \* since the C03 fix: `b == -1 ? 0 : a % b` (MIN % -1 would overflow in C)
   ELSE LET r == Wrap(t, TruncRem(a, b))
            adapt == IF r # 0 /\ (IF bconst THEN (r < 0) # (b < 0) ELSE BitXorNeg(r, b)) THEN 1 ELSE 0
        IN IF ~PFits(t, r + adapt * b) THEN cUB ELSE Wrap(t, r + adapt * b)
